@@ -148,8 +148,9 @@ class Ctx:
         self.solver = z3.Solver()
         self.solver.set("timeout", timeout_ms)
         self.solver.set("rlimit", rlimit)
-        if seed:
-            self.solver.set("random_seed", seed)
+        # VERIF_SEED is deliberately NOT passed to z3: nlsat's behaviour on the nonlinear queries is seed-sensitive
+        # (C05 went from 10 s to 13 min under random_seed=1 with identical verdicts); the seed only drives the sampling
+        # of recipe programs in the thorough tiers, so verdicts and timings of the quick tier do not depend on it.
         self.ngens = 0
         self.names: list[str] = []
         self.zvars: list = []
